@@ -139,6 +139,12 @@ def run(ctx):
             else:
                 sess.append({"kind": "multi", "writers": [[[rng.randrange(2), rng.choice([1, eps + 1])]] for _ in range(rng.choice([1, 2]))]})
         plans.append((fmt, eps, sess))
+    # directed: a list that has children (from a multi-writer call and a sub-directory session) *and* receives shards of its own
+    plans.insert(0, (["fb", "npz", "tfrec"][ctx.seed % 3], 2, [
+        {"kind": "multi", "writers": [[[0, 3]], [[0, 1]]]},
+        {"kind": "filler", "sub": ".", "writes": [[0, 3]]},
+        {"kind": "filler", "sub": "a/y", "writes": [[0, 2]]},
+        {"kind": "filler", "sub": ".", "writes": [[0, 1], [1, 2]]}]))
     for ci, (fmt, eps, sess) in enumerate(plans):
         root = ctx.scratch / f"c06_{ci}"
         sp.mk(root, fmt=fmt, eps=eps)
